@@ -3,6 +3,7 @@ package c12
 
 import (
 	"bytes"
+	"context"
 	"crypto/ed25519"
 	"crypto/rand"
 	"crypto/x509"
@@ -13,6 +14,7 @@ import (
 	"time"
 
 	"github.com/hashicorp/nodeenrollment"
+	"github.com/hashicorp/nodeenrollment/protocol"
 	"github.com/hashicorp/nodeenrollment/registration"
 	"github.com/hashicorp/nodeenrollment/rotation"
 	"github.com/hashicorp/nodeenrollment/types"
@@ -577,7 +579,16 @@ func TestProp_Flows(t *testing.T) {
 			_, err = registration.AuthorizeNode(w.Ctx, w.Store, d.Request(), w.O()...)
 			must(err, "authorize (dial flow)")
 			rig := vkit.NewRig(w, vkit.RigConfig{})
-			c1, err := rig.Dial(d)
+			// the application's option slice, with drawn spare capacity (as built with append)
+			spare := rapid.IntRange(0, 6).Draw(t, "dialOptionSpareCapacity")
+			dopts := make([]nodeenrollment.Option, 0, 2+spare)
+			dopts = append(dopts, nw)
+			if rapid.Bool().Draw(t, "dialExtraOption") {
+				dopts = append(dopts, nodeenrollment.WithExtraAlpnProtos([]string{"app"}))
+			}
+			dctx, dcancel := context.WithTimeout(w.Ctx, 20*time.Second)
+			c1, err := protocol.Dial(dctx, nodeRec, rig.Addr, dopts...)
+			dcancel()
 			outs := rig.Sync()
 			for _, o := range outs {
 				if o.Conn != nil {
@@ -589,7 +600,11 @@ func TestProp_Flows(t *testing.T) {
 			}
 			rig.Close()
 			must(err, "dial")
-			if !scan(t, nodeRec.Log(), f.secrets, map[string]any{"flows": flows, "side": "node storage during Dial"}) {
+			if !scan(t, nodeRec.Log(), f.secrets, map[string]any{"flows": flows, "side": "node storage during Dial", "option_slice_spare_capacity": spare}) {
+				return
+			}
+			if _, lerr := types.LoadNodeCredentials(w.Ctx, nodeInner, nodeenrollment.CurrentId); lerr == nil {
+				vkit.Violate(t, prop, "C12/load-without-wrapper-succeeded/NodeCredentials", "node credentials written by Dial with a storage wrapper load without one", map[string]any{"flows": flows, "option_slice_spare_capacity": spare})
 				return
 			}
 			rec.Count("store_operations_scanned", int64(len(nodeRec.Log())))
